@@ -913,3 +913,56 @@ def kepler_high_ecc_bounded(vc):
     except Exception:  # noqa: BLE001
         ok = False
     vc.ensure("B-C12-kepler.equinoctial-solve-high-eccentricity", bool(ok))
+
+
+@obligation("C12", "coe2eqe_def", ensures=["O-C12-coe2eqe.definition", "O-C12-coe2eqe.mean-longitude", "O-C12-eqe2coe.closed-form"],
+            fns=[CV + "coe2eqe", CV + "eqe2coe"], mode="R", ax_shift=True, timeout_ms=60000,
+            note="coe2eqe returns the documented equinoctial set for the direct (I = +1) and the retrograde (I = -1) convention: h = e sin(argp + I raan), k = e cos(argp + I raan), "
+                 "p = tan(i/2)^I sin raan, q = tan(i/2)^I cos raan, semi-major axis unchanged, mean longitude = trueAnom2MeanLong(nu, e, raan, argp, retro) (its own contract: "
+                 "O-C12-composite.true-to-mean-long); eqe2coe hands (e, i, atan2(p, q), atan2(h, k) - I raan, meanLong2TrueAnom(...)) to singularityCheck, with e and i from their helpers")
+def coe2eqe_def(vc):
+    sma = vc.real("sma", 6500.0, 1e5)
+    e = vc.real("e", 0.0, 0.95)
+    inc = vc.angle("inc", 0.01, np.pi - 0.01)
+    raan = vc.angle("raan", 0.0, TWO_PI)
+    argp = vc.angle("argp", 0.0, TWO_PI)
+    nu = vc.angle("nu", 0.0, TWO_PI)
+    retro = vc.bool("retro")
+    II = -1 if retro else 1
+    ml = vc.angle("mean_long_out", 0.0, 6.0)
+    seen = []
+    vc.install(CV + "@trueAnom2MeanLong", lambda *a, **k: (seen.append((a, k)), ml)[1])
+    out = vc.fn(CV + "coe2eqe")(sma, e, inc, raan, argp, nu, retro=retro)
+    half = inc / 2
+    sh, ch = vc.sin(half), vc.cos(half)
+    if vc.symbolic:
+        vc.assume(vc.And(sh > 0, ch > 0))
+    t = (ch / sh) if retro else (sh / ch)
+    lon = argp + II * raan
+    tol = 1e-9
+    vc.ensure("O-C12-coe2eqe.definition", vc.And(len(out) == 6, vc.close(out[0], sma, 0.0), vc.close(out[1], e * vc.sin(lon), tol), vc.close(out[2], e * vc.cos(lon), tol),
+                                                 vc.close(out[3] * (sh if retro else ch), (ch if retro else sh) * vc.sin(raan), tol) if vc.symbolic else vc.close(out[3], t * vc.sin(raan), 1e-7 * (1 + abs(t))),
+                                                 vc.close(out[4] * (sh if retro else ch), (ch if retro else sh) * vc.cos(raan), tol) if vc.symbolic else vc.close(out[4], t * vc.cos(raan), 1e-7 * (1 + abs(t)))))
+    (a, k), = seen
+    vc.ensure("O-C12-coe2eqe.mean-longitude", vc.And(out[5] is ml, len(a) == 4, vc.close(a[0], nu, 0.0), vc.close(a[1], e, 0.0), vc.close(a[2], raan, 0.0), vc.close(a[3], argp, 0.0), k.get("retro") is retro))
+    # eqe2coe: what reaches singularityCheck
+    h, kk, p, q = vc.real("h", -0.6, 0.6), vc.real("k", -0.6, 0.6), vc.real("p", -2, 2), vc.real("q", -2, 2)
+    lam = vc.angle("lam", 0.0, TWO_PI)
+    ecc_h, inc_h, nu_h = vc.real("ecc_h", 0.0, 0.9), vc.angle("inc_h", 0.01, 3.0), vc.angle("nu_h", 0.0, 6.0)
+    calls = {}
+    vc.install(CV + "@getEccentricityFromEQE", lambda *a, **k2: (calls.__setitem__("ecc", (a, k2)), ecc_h)[1])
+    vc.install(CV + "@getInclinationFromEQE", lambda *a, **k2: (calls.__setitem__("inc", (a, k2)), inc_h)[1])
+    vc.install(CV + "@meanLong2TrueAnom", lambda *a, **k2: (calls.__setitem__("nu", (a, k2)), nu_h)[1])
+    ret = (vc.angle("r0", 0, 6), vc.angle("r1", 0, 6), vc.angle("r2", 0, 6))
+    vc.install(CV + "@singularityCheck", lambda *a: (calls.__setitem__("sing", a), ret)[1])
+    res = vc.fn(CV + "eqe2coe")(sma, h, kk, p, q, lam, retro=retro)
+    raan_w = vc.arctan2(p, q)
+    argp_w = vc.arctan2(h, kk) - II * raan_w
+    s_ = calls.get("sing", (None,) * 5)
+    n_ = calls.get("nu", ((None,) * 4, {}))
+    ok = vc.And(len(res) == 6, vc.close(res[0], sma, 0.0), res[1] is ecc_h, res[2] is inc_h, res[3] is ret[0], res[4] is ret[1], res[5] is ret[2],
+                s_[0] is ecc_h, s_[1] is inc_h, vc.close(s_[2], raan_w, 1e-12), vc.close(s_[3], argp_w, 1e-12), s_[4] is nu_h,
+                vc.close(calls["ecc"][0][0], h, 0.0), vc.close(calls["ecc"][0][1], kk, 0.0), vc.close(calls["inc"][0][0], p, 0.0), vc.close(calls["inc"][0][1], q, 0.0),
+                calls["inc"][1].get("retro") is retro, vc.close(n_[0][0], lam, 0.0), n_[0][1] is ecc_h, vc.close(n_[0][2], raan_w, 1e-12), vc.close(n_[0][3], argp_w, 1e-12),
+                n_[1].get("retro") is retro)
+    vc.ensure("O-C12-eqe2coe.closed-form", ok)
